@@ -147,6 +147,9 @@ def run(pid, tier, seed, replay=None):
 
     if replay:
         rp = json.load(open(replay))
+        if rp.get('kind') == 'io-run':
+            from . import iojob
+            return iojob.run(pid, tier, seed, replay)
         inp = os.path.join(wd, 'replay_in.ndjson')
         x = rp['input']
         if 'bytes' not in x:
@@ -188,6 +191,17 @@ def run(pid, tier, seed, replay=None):
     validate(trace, 'recorded_damaged_packets')
     os.remove(trace)
 
+    if pid == 'C06':
+        # second half of C06: reading a header from io::Read == decoding it from a slice (13 header types, every fault position)
+        from . import iojob
+        v2, st2, notes2, samples2 = iojob.run_io(pid, tier, seed, wd, binary)
+        violations.extend(v2)
+        stats['generated'] += st2['generated']
+        stats['distinct'] += st2['distinct']
+        stats['events'] += st2['events']
+        stats['runs'] += st2['faults']
+        notes['reader_vs_slice'] = notes2
+        samples.extend(samples2[:1])
     cov = {
         'states': stats['distinct'], 'transitions': stats['generated'],
         'traces_validated_against_impl': stats['events'],
